@@ -1951,7 +1951,7 @@ class UTPM(Ring, RawAlgorithmsMixIn):
     def extract_hess_vec(cls, N, x):
         """ extracts the Hessian-vector product from a UTPM instance
         """
-        Hv = numpy.zeros(N)
+        Hv = numpy.zeros(N, dtype=x.data.dtype)
         for n in range(N):
             Hv[n] = -x.data[2, n] + x.data[2, n+N] - x.data[2, 2*N]
         return Hv
